@@ -132,15 +132,29 @@ def run(ctx):
                     for _, e in p.calls('KeGroup::hash_to_scalar'):
                         calls.add(e[2])
                 ok = bool(calls)
-                for inp, dst in calls:
+                concrete_ctrs = set()
+                for inp, dst in sorted(calls, key=repr):
                     inp_cat = Cat([norm(x) for x in inp[1]]) if inp[0] in ('array', 'list') else None
                     dst_cat = Cat([norm(x) for x in dst[1]]) if dst[0] in ('array', 'list') else None
                     ctr = [x for x in subterms(inp, lambda t: t[0] == 'app' and t[1] == 'RangeItem')]
                     want_in = Cat([Sym('seed'), Bytes((33).to_bytes(2, 'big')), Bytes(rfc.DERIVE_DH_INFO), App('I2OSP', ctr[0], Int(1))]) if ctr else None
+                    if not ctr and inp[0] in ('array', 'list') and inp[1] and norm(inp[1][-1])[0] == 'bytes' and len(norm(inp[1][-1])[1]) == 1:
+                        # the counter loop was unrolled completely (a loop that is not a `for` over a range): one call per concrete counter value
+                        k = norm(inp[1][-1])[1][0]
+                        concrete_ctrs.add(k)
+                        want_in = Cat([Sym('seed'), Bytes((33).to_bytes(2, 'big')), Bytes(rfc.DERIVE_DH_INFO), Bytes(bytes([k]))])
+                        if k not in (0, 1, 255):
+                            # 256 identical rows add nothing to the report: the formula is compared for each, reported for the boundary counters
+                            if inp_cat != want_in or dst_cat != Bytes(b'DeriveKeyPair' + b'OPRFV1-' + b'\x00' + b'-' + P['suite_id']):
+                                ok = row('R09.7', 'DeriveDiffieHellmanKeyPair: hash-to-scalar input/DST for counter %d' % k, inp_cat, want_in, wd, sn) and ok
+                            continue
                     want_dst = Bytes(b'DeriveKeyPair' + b'OPRFV1-' + b'\x00' + b'-' + P['suite_id'])
                     ok = ok and row('R09.7', 'DeriveDiffieHellmanKeyPair: hash-to-scalar input = seed || I2OSP(33,2) || "OPAQUE-DeriveDiffieHellmanKeyPair" || I2OSP(counter,1)', inp_cat, want_in, wd, sn)
                     ok = ok and row('R09.7', 'DeriveDiffieHellmanKeyPair: DST = "DeriveKeyPair" || "OPRFV1-" || 0x00 || "-" || suite id', dst_cat, want_dst, wd, sn)
                 rep.ob('R09.7', 'DeriveDiffieHellmanKeyPair: hash-to-scalar calls found', bool(calls), '', wd, sn)
+                if concrete_ctrs:
+                    rep.ob('R09.7', 'DeriveDiffieHellmanKeyPair: the unrolled counter loop tries exactly the counters 0..255', concrete_ctrs == set(range(256)),
+                           'counters seen: %d (min %s, max %s)' % (len(concrete_ctrs), min(concrete_ctrs), max(concrete_ctrs)), wd, sn)
         else:
             rep.ob('R09.7', 'DeriveDiffieHellmanKeyPair body found', False, 'instances %d' % len(bs), '', sn)
         # ---- server login start: pad, masking, key schedule, MAC, state, wire image
